@@ -10,7 +10,7 @@
 (***************************************************************************)
 EXTENDS Integers, Sequences, FiniteSets, TLC
 
-SubmitFaults == {"none", "timeout", "mempool", "toobig", "err", "cancel", "acklost"}
+SubmitFaults == {"none", "timeout", "mempool", "toobig", "seqnum", "deadline", "err", "cancel", "acklost"}
 FetchFaults == {"ok", "notfound", "future", "errlist", "errchunk"}
 
 \* expected status code (names of core/da StatusCode) and submitted count
@@ -21,6 +21,8 @@ SubmitCode(n, fit, fault) ==
            [] fault = "timeout" -> "NotIncludedInBlock"
            [] fault = "mempool" -> "AlreadyInMempool"
            [] fault = "toobig" -> "TooBig"
+           [] fault = "seqnum" -> "IncorrectAccountSequence"
+           [] fault = "deadline" -> "ContextDeadline"
            [] fault = "cancel" -> "ContextCanceled"
            [] OTHER -> "Error"
 SubmitCount(n, fit, fault) == IF n > 0 /\ fit > 0 /\ fault = "none" THEN fit ELSE 0
